@@ -405,6 +405,9 @@ def get_parser(node, parse_name):
         "sqlalchemy_hybrid": "sqlalchemy",
         "sqlalchemy_table": "sqlalchemy",
     }.get(parse_name, parse_name)
+    if parse_name in frozenset(("argparse", "argparse_ast", "argparse_function")):
+        # The package is `cdd.argparse_function`, its parser `argparse_ast`
+        return import_module("cdd.argparse_function.parse").argparse_ast
     return getattr(import_module(".".join(("cdd", parse_name, "parse"))), parse_name)
 
 
